@@ -207,6 +207,10 @@ def run(repo: Repo, rep: Report, tier: str) -> None:
 
     memo_rule(repo, rep, "C15.R4")
     read_only_value_rule(repo, rep, "C15.R5")
+    from .c11 import union_life_rule
+
+    # two union values parsed one after the other (or by two threads) share no member object: the second parse leaves the first value as it was
+    union_life_rule(repo, rep, "C15.R6")
 
 
 
